@@ -141,8 +141,8 @@ class SymExec:
                 return simp(("bin", "pow", args[0], args[1]))
             if fn == "sum" and len(args) == 1:
                 return ("sum", args[0])
-            if fn == "divmod":
-                return ("unk", norm(e))
+            if fn == "divmod" and len(args) == 2:
+                return ("tuple", (simp(("bin", "floordiv", args[0], args[1])), simp(("bin", "mod", args[0], args[1]))))
         if isinstance(e.func, ast.Attribute):
             base = norm(e.func.value)
             if base == "math" and fn == "trunc" and len(args) == 1:
@@ -173,6 +173,15 @@ class SymExec:
             merged = merge_paths(paths)
             if len(merged) == 1 and not merged[0][0]:
                 return merged[0][1]
+            # several return paths: the paths partition the argument space, so the value is a chain of conditional expressions
+            def _guard_term(gs: tuple) -> Any:
+                parts = tuple(g if pol else simp(("not", g)) for g, pol in gs)
+                return parts[0] if len(parts) == 1 else ("and", parts)
+            if merged and all(g for g, _t in merged[:-1]) and all(_t[0] not in ("raise",) for _g, _t in merged) and len(merged) <= 6:
+                acc = merged[-1][1]
+                for gs, t in reversed(merged[:-1]):
+                    acc = ("ite", _guard_term(gs), t, acc)
+                return acc
             return ("unk", f"helper {helper.short} has {len(merged)} paths")
         return ("unk", norm(e))
 
@@ -237,6 +246,10 @@ class SymExec:
                 return
             if isinstance(st, ast.Assign) and len(st.targets) == 1 and isinstance(st.targets[0], ast.Name):
                 env[st.targets[0].id] = self.term(st.value, env)
+            elif isinstance(st, ast.Assign) and len(st.targets) == 1 and isinstance(st.targets[0], ast.Tuple) and all(isinstance(x, ast.Name) for x in st.targets[0].elts):
+                tv = self.term(st.value, env)
+                for k_, x in enumerate(st.targets[0].elts):
+                    env[x.id] = tv[1][k_] if tv[0] == "tuple" and len(tv[1]) == len(st.targets[0].elts) else ("unk", norm(st.value))
             elif isinstance(st, ast.AnnAssign) and isinstance(st.target, ast.Name) and st.value is not None:
                 env[st.target.id] = self.term(st.value, env)
             elif isinstance(st, ast.AugAssign) and isinstance(st.target, ast.Name) and type(st.op) in _BIN:
@@ -600,6 +613,24 @@ def _ev(t: Any, l: int, r: int) -> Any:
         return all(_ev(x, l, r) for x in t[1])
     if k == "or":
         return any(_ev(x, l, r) for x in t[1])
+    if k == "ite":
+        return _ev(t[2], l, r) if _ev(t[1], l, r) else _ev(t[3], l, r)
+    if k == "wrap32":
+        return _wrap(_ev(t[1], l, r))
+    if k == "mask32":
+        return _ev(t[1], l, r) & MASK
+    if k in ("truncdiv", "cmod"):
+        a, b = _ev(t[1], l, r), _ev(t[2], l, r)
+        if b == 0:
+            raise ValueError("div0")
+        q = abs(a) // abs(b)
+        q = -q if (a < 0) != (b < 0) else q
+        return q if k == "truncdiv" else a - b * q
+    if k == "bin" and t[1] in ("floordiv", "mod"):
+        a, b = _ev(t[2], l, r), _ev(t[3], l, r)
+        if b == 0:
+            raise ValueError("div0")
+        return a // b if t[1] == "floordiv" else a % b
     if k == "bin":
         a, b = _ev(t[2], l, r), _ev(t[3], l, r)
         f = _PYCONST.get(t[1])
@@ -739,7 +770,31 @@ def classify(op: str, paths: list[tuple[tuple, Any]]) -> Verdict:
     t = next(iter(terms))
     if t == NONE:
         return Verdict("ABSENT", "", "declines to fold")
-    return _classify_term(op, t, zero_guarded)
+    v = _classify_term(op, t, zero_guarded)
+    if v.status == "UNRECOGNISED" and op in ("+", "-", "*", "/", "%", "**", "<<", ">>", "AND", "OR", "XOR"):
+        # no idiom matched: interpret the extracted term (not repository code) on the boundary sample and compare with the oracle table.
+        # A disagreement is a deviation with a witness; agreement on the sample proves nothing and stays UNRECOGNISED.
+        w = _term_witness(op, t)
+        if w is not None:
+            return Verdict("DEVIATES", "witness", f"{show(t)[:120]}: L={w[0]}, R={w[1]} gives {w[3]} where run time gives {w[2]}")
+    return v
+
+
+def _term_witness(op: str, t: Any):
+    for l in _SAMPLE:
+        for r in _SAMPLE:
+            want = _oracle(op, l, r)
+            if want is None or (op in ("/", "%") and r == 0):
+                continue
+            try:
+                got = _ev(t, l, r)
+            except Exception:
+                continue
+            if isinstance(got, bool):
+                got = int(got)
+            if isinstance(got, int) and got != want:
+                return (l, r, want, got)
+    return None
 
 
 def _strip_wrap(t: Any) -> tuple[Any, str]:
